@@ -9,4 +9,4 @@ def generic(c, rf, model):
     mods = ['contracts.' + os.path.basename(f)[:-3]
             for f in sorted(glob.glob(os.path.join(VERIF, 'contracts', '[CT][0-9][0-9]*.py')))]
     return ('from pyvc import replaylib\n'
-            'sys.exit(replaylib.run_generic(%r, %r, OBLIGATION, MODEL))\n' % (mods, c.qname))
+            'sys.exit(replaylib.run_generic(%r, %r, OBLIGATION, MODEL))\n' % (mods, getattr(c, 'key', c.qname)))
